@@ -210,26 +210,33 @@ def rowList (B : Builder S T) (prims : List Sym) (request : Ty) (rule : NT S T) 
 def rowDict (B : Builder S T) (prims : List Sym) (request : Ty) (rule : NT S T) : Row S T :=
   (rowList B prims request rule).foldl (fun d r => AList.insert r.1 r.2 d) []
 
-/-- the worklist loop; the head of `todo` is the right end of the deque -/
-def satLoop (B : Builder S T) (prims : List Sym) (request : Ty) :
-    Nat → List ((Ty × S) × T × List (Ty × S)) → Table S T → Option (Table S T)
-  | _, [], tbl => some tbl
-  | 0, _ :: _, _ => none
-  | fuel + 1, (slot, cur, stack) :: todo, tbl =>
+/-- the worklist loop; the head of `todo` is the right end of the deque.  `stackKey = false`: the
+    code as it is - a popped entry is skipped when its rule key already has a row, whatever its
+    pending stack (finding C13-F2).  `stackKey = true`: the code with the proposed repair - an
+    entry is skipped only when the same (rule key, pending stack) was treated before (`seen`);
+    the row of an existing key is not rebuilt (it would be identical). -/
+def satLoop (B : Builder S T) (prims : List Sym) (request : Ty) (stackKey : Bool) :
+    Nat → List ((Ty × S) × T × List (Ty × S)) → List (NT S T × List (Ty × S)) → Table S T → Option (Table S T)
+  | _, [], _, tbl => some tbl
+  | 0, _ :: _, _, _ => none
+  | fuel + 1, (slot, cur, stack) :: todo, seen, tbl =>
     let rule : NT S T := (slot.1, (slot.2, cur))
-    if AList.contains rule tbl then satLoop B prims request fuel todo tbl else
+    if (if stackKey then seen.contains (rule, stack) else AList.contains rule tbl) then
+      satLoop B prims request stackKey fuel todo seen tbl
+    else
     let pushes := (rowList B prims request rule).filterMap (fun r =>
       match r.2.1 ++ stack with
       | [] => none
       | x :: rest => some (x, r.2.2, rest))
-    satLoop B prims request fuel (pushes.reverse ++ todo)
-      (AList.insert rule (rowDict B prims request rule) tbl)
+    satLoop B prims request stackKey fuel (pushes.reverse ++ todo) ((rule, stack) :: seen)
+      (if AList.contains rule tbl then tbl else AList.insert rule (rowDict B prims request rule) tbl)
 
 def startOf (B : Builder S T) (request : Ty) : NT S T := (request.returns, B.init)
 
 /-- the table handed to the `TTCFG` constructor -/
-def saturationTable (B : Builder S T) (prims : List Sym) (request : Ty) (fuel : Nat) : Option (TT S T) :=
-  match satLoop B prims request fuel [((request.returns, B.init.1), B.init.2, [])] [] with
+def saturationTable (B : Builder S T) (prims : List Sym) (request : Ty) (stackKey : Bool) (fuel : Nat) :
+    Option (TT S T) :=
+  match satLoop B prims request stackKey fuel [((request.returns, B.init.1), B.init.2, [])] [] [] with
   | none => none
   | some tbl => some ⟨startOf B request, tbl⟩
 
@@ -410,6 +417,21 @@ def langOf (G : TT S T) (k : Nat) : List Prog :=
 
 end LangT
 
+
+/-! ## the code with the proposed repair C13-F6 (empty grammars) -/
+section EmptyFix
+variable {S T : Type} [DecidableEq S] [DecidableEq T]
+
+/-- `clean()` with `if self.start not in self.rules: self.rules = {}; return` in front -/
+def cleanFixed (G : TT S T) (fuel : Nat) : Res (TT S T) :=
+  if AList.contains G.start G.rules then clean G fuel else .ok ⟨G.start, []⟩
+
+/-- `programs()` with `if self.start not in self.rules: return 0` in front -/
+def programsFixed (G : TT S T) (fuel : Nat) : Option Nat :=
+  if AList.contains G.start G.rules then programs G fuel else some 0
+
+end EmptyFix
+
 /-! ## product -/
 
 section Mul
@@ -435,6 +457,13 @@ def mul (G1 : TT S T) (G2 : TT U V) (fuel : Nat) : Res (TT (S × U) (T × V)) :=
   clean (mulRaw G1 G2) fuel
 
 end Mul
+
+
+/-- every rule gives its symbol the argument types that the symbol's type has at the type of the
+    non-terminal (what grammars compiled from a DSL satisfy); decidable, evaluated by the driver
+    on both factors of every product -/
+def typedOK {S T : Type} (G : TT S T) : Bool :=
+  G.rules.all (fun e => e.2.all (fun r => r.1.ty.endsWith e.1.1 == some (r.2.1.map (·.1))))
 
 /-! ## type request -/
 
@@ -547,9 +576,9 @@ def atMostBuilder (dsl : Dsl) (nGram : Int) (name : String) (k : Nat) : Builder 
     getNT := fun ctx P i _ => successor nGram ctx.2.1 (P, i) }
 
 /-- `TTCFG.size_constraint(dsl, type_request, max_size, n_gram)` -/
-def sizeConstraint (dsl : Dsl) (request : Ty) (maxSize : Nat) (nGram : Int) (actual : Bool) (fuel : Nat) :
+def sizeConstraint (dsl : Dsl) (request : Ty) (maxSize : Nat) (nGram : Int) (actual stackKey : Bool) (fuel : Nat) :
     Res (TTG Ctx (Nat × Nat)) :=
-  match saturationTable (sizeBuilder dsl nGram maxSize actual) dsl.prims request fuel with
+  match saturationTable (sizeBuilder dsl nGram maxSize actual) dsl.prims request stackKey fuel with
   | none => .fuel
   | some G0 =>
     match clean G0 fuel with
@@ -558,9 +587,9 @@ def sizeConstraint (dsl : Dsl) (request : Ty) (maxSize : Nat) (nGram : Int) (act
     | .keyError => .keyError
 
 /-- `TTCFG.at_most_k(dsl, type_request, primitive, k, n_gram)` -/
-def atMostK (dsl : Dsl) (request : Ty) (name : String) (k : Nat) (nGram : Int) (fuel : Nat) :
+def atMostK (dsl : Dsl) (request : Ty) (name : String) (k : Nat) (nGram : Int) (stackKey : Bool) (fuel : Nat) :
     Res (TTG Ctx Nat) :=
-  match saturationTable (atMostBuilder dsl nGram name k) dsl.prims request fuel with
+  match saturationTable (atMostBuilder dsl nGram name k) dsl.prims request stackKey fuel with
   | none => .fuel
   | some G0 =>
     match clean G0 fuel with
